@@ -77,7 +77,8 @@ def gen_history(run_seed: int, cfg: dict) -> dict:
             if r.random() < 0.3:
                 op["listfault"] = {"n": r.randint(1, 3), "kind": r.choice(["LIST_EIO", "LIST_SHORT"]), "cut": round(r.uniform(0.1, 0.9), 3)}
             else:
-                op["iofault"] = {"n": r.randint(1, 159), "kind": r.choice(["EIO", "ENOENT", "EACCES", "SHORT", "SHORT"]), "cut": round(r.uniform(0.05, 0.95), 3)}
+                # a set-up reads each of the ~19 files several times (157 reads): small n = first read of a file
+                op["iofault"] = {"n": r.randint(1, 19) if r.random() < 0.5 else r.randint(1, 159), "kind": r.choice(["EIO", "ENOENT", "EACCES", "SHORT", "SHORT"]), "cut": round(r.uniform(0.05, 0.95), 3)}
         if e not in handles:
             handles.append(e)
             n_reforms[e] = 0
@@ -106,17 +107,32 @@ def gen_history(run_seed: int, cfg: dict) -> dict:
         return op
 
     def first_setup():
+        # sometimes the very first set-up of the process is the faulty one (first read of
+        # every file); a clean set-up of the same handle follows so that the rest of the
+        # history has an environment to work with
         st = mk_setup()
+        if faults and r.random() < 0.2 and not any(k in st for k in ("abort", "iofault", "listfault")):
+            u = r.random()
+            if u < 0.5:
+                st["iofault"] = {"n": r.randint(1, 19), "kind": r.choice(["SHORT", "SHORT", "EIO"]), "cut": round(r.uniform(0.05, 0.95), 3)}
+            elif u < 0.75:
+                st["abort"] = r.randint(1, 52000)
+            else:
+                st["listfault"] = {"n": r.randint(1, 3), "kind": r.choice(["LIST_EIO", "LIST_SHORT"]), "cut": round(r.uniform(0.1, 0.9), 3)}
+        faulty = any(k in st for k in ("abort", "iofault", "listfault"))
+        if faulty and r.random() < 0.8:
+            clean = {"op": "SETUP", "e": st["e"], "date": st["date"]}
+            return [st, clean]
         st.pop("abort", None)
         st.pop("iofault", None)
         st.pop("listfault", None)
-        return st
+        return [st]
 
     if style == "rewrite_first":
-        ops.append(first_setup())
+        ops.extend(first_setup())
         ops.append({"op": "REWRITE", "e": handles[0], "which": "all", "kind": r.choice(["func", "func", "source"])})
     else:
-        ops.append(first_setup())
+        ops.extend(first_setup())
     while len(ops) < n_ops:
         kinds = [k for k in w if w[k] > 0]
         k = r.choices(kinds, [w[x] for x in kinds])[0]
@@ -151,7 +167,20 @@ def gen_history(run_seed: int, cfg: dict) -> dict:
                 n_reforms[e] -= 1
         elif k == "REPLACE":
             variant = r.choice([*userlib.REPLACEMENTS, f"copy:{round(r.random(), 6)}", f"copy:{round(r.random(), 6)}", f"derived:{round(r.random(), 6)}", f"derived:{round(r.random(), 6)}", f"derived:{round(r.random(), 6)}", "module_path", "module_import", "module_object"])
-            ops.append({"op": "REPLACE", "e": r.choice(handles), "variant": variant, "mode": r.choice(["dict", "list"])})
+            rop = {"op": "REPLACE", "e": r.choice(handles), "variant": variant, "mode": r.choice(["dict", "list"])}
+            ops.append(rop)
+            if variant == "module_path" and r.random() < 0.7:
+                # a load of the user's module that fails for an outside reason, between good ones
+                for fail in ((True, False) if r.random() < 0.5 else (False, True, False)):
+                    cp = mk_compute()
+                    cp["e"] = rop["e"]
+                    cp.pop("abort", None)
+                    cp.pop("listfault", None)
+                    cp.pop("um_fail", None)
+                    if fail:
+                        cp["um_fail"] = True
+                    ops.append(cp)
+                have_compute = True
         elif k in ("ALIAS", "DEEPCOPY"):
             e2 = f"e{len(handles)}"
             src = r.choice(handles)
@@ -309,7 +338,7 @@ def make_data(pop: dict, form: str):
     if form == "two_units":
         # the same quantity supplied in two time units (deliberately not consistent to
         # the last cent): which one wins must not depend on anything but the call
-        for src, dst, f in (("bruttolohn_m", "bruttolohn_w", 0.25), ("eink_selbst_m", "eink_selbst_y", 12.5), ("sonstig_eink_m", "sonstig_eink_w", 0.2)):
+        for src, dst, f in (("bruttolohn_m", "bruttolohn_w", 0.25), ("eink_selbst_m", "eink_selbst_w", 0.2), ("eink_vermietung_m", "eink_vermietung_d", 0.03), ("kapitaleink_brutto_m", "kapitaleink_brutto_w", 0.25)):
             if src in df.columns:
                 df[dst] = df[src].to_numpy() * f + 1.0
     if form in ("frame", "frame_conv", "two_units"):
@@ -796,6 +825,9 @@ def _do_compute(op, envs, prepared, history, ev, rg=None) -> int:
     targets = resolve_targets(op["targets"], _as_dict(env.functions))
     # a user who replaced a column looks at that column: request it as a target too
     watched = sorted({x["name"] for x in env.repl if x.get("name") and not x["variant"].startswith("copy:")})
+    if op["form"] == "two_units":
+        # ... and one who supplies a quantity in two time units looks at the others
+        watched = sorted({*watched, "bruttolohn_y", "bruttolohn_d"})
     if watched:
         from gettsim import config
 
